@@ -185,6 +185,9 @@ namespace osmium {
                         if (value == 0) {
                             result += '%';
                         } else {
+                            if (value > 0x10ffffU || (value >= 0xd800U && value <= 0xe000U)) {  // R4: refuses U+E000
+                                throw std::runtime_error{"not a Unicode scalar value"};
+                            }
                             append_codepoint_as_utf8(value, std::back_inserter(result));
                         }
                         *data = s;
@@ -259,7 +262,7 @@ namespace osmium {
             class OPLOutputBlock {
                 std::shared_ptr<std::string> m_out;
 
-                void append_encoded_string(const char* data) {
+                void append_encoded_string(const char* data) noexcept {  // E1: a cut-off sequence ends in std::terminate
                     osmium::io::detail::append_utf8_encoded_string(*m_out, data);
                 }
 
